@@ -57,6 +57,13 @@ class ConclusionSelector(LogicalBinaryOperator, ABC):
             self._conclusion_.update(conclusions)
             self.concluded_before[not self._is_false_].add(required_output)
 
+    def _reset_evaluation_state_(self):
+        super()._reset_evaluation_state_()
+        # the conclusions selected for the output that was being produced when an evaluation was abandoned
+        self._conclusion_.clear()
+        for seen_set in self.concluded_before.values():
+            seen_set.clear()
+
     @property
     def _plot_color_(self) -> ColorLegend:
         return ColorLegend("ConclusionSelector", "#eded18")
